@@ -1,7 +1,7 @@
 (* C21 — Local cancellation unwinds only its own handle and leaves results correct.
    Token-machine level (Cancel/Model.v: token machine). *)
 From Salsa Require Import Base.
-From Salsa.Cancel Require Import TokK Model Proofs.
+From Salsa.Cancel Require Import Model Proofs.
 
 Theorem C21_own_only :
   (forall tok flag, check_outcome tok flag = OLocal <-> tok = CANCELLED_MASK) /\
